@@ -765,14 +765,21 @@ __published:
   QlHop() {}
   operator const char * () const { return "hop"; }
   const char *name() const { return "n"; }
-  const wchar_t *wname() const { return L"w"; }
   int take(const char *s) const { return s ? s[0] : 0; }
-  int wtake(const wchar_t *s) const { return s ? (int)s[0] : 0; }
   const char *field;
 };
 __begin_publish
 inline const char *ql_free() { return "f"; }
 __end_publish
+""")
+
+atom("widestring", "adversarial", r"""
+class QmWide {
+__published:
+  QmWide() {}
+  const wchar_t *wname() const { return L"w"; }
+  int wtake(const wchar_t *s) const { return s ? (int)s[0] : 0; }
+};
 """)
 
 ATOM_BY_NAME = {a.name: a for a in ATOMS}
